@@ -151,6 +151,14 @@ func (r *Run) Violation(key, what string, replay any) {
 }
 
 // Violations returns the number of (unlisted) violations so far.
+// Hit reports whether a violation (or a listed known finding) with this key was recorded.
+func (r *Run) Hit(key string) bool {
+	r.mu.Lock()
+	defer r.mu.Unlock()
+	_, ok := r.viol[key]
+	return ok || r.knownHit[key] > 0
+}
+
 func (r *Run) Violations() int {
 	r.mu.Lock()
 	defer r.mu.Unlock()
